@@ -100,7 +100,8 @@ Proof.
   - destruct (bf_source _ _ _ _ Hbf) as [s Hs].
     pose proof (index_of_range _ _ _ Hs) as Hsr.
     destruct (bellman_ford_result g s k Hsr Hwf source _ Hs Hbf) as [Hg [H0 Hopt]].
-    destruct (path_to_valid g s k Hk (build_mkt_pair ms) _ _ _ _ _ Hg Hs H0 Hp Hne)
+    assert (Hg' : good g s (p_state p) \/ no_pred (p_state p)) by (destruct Hg as [A | [_ A]]; auto).
+    destruct (path_to_valid g s k Hk (build_mkt_pair ms) _ _ _ _ _ Hg' Hs H0 Hp Hne)
       as [t [es [dv [Ht [Hst [Hw [Hm [Hl [Hn [Hnp [Hd [Hdt Hc]]]]]]]]]]]].
     exists s, t, es, dv. repeat split; auto.
     + intros e He. apply build_edges. eapply gwalk_edges_in; eassumption.
@@ -190,34 +191,14 @@ Proof.
   split; [exists dv; auto|].
   assert (Hts : t <> s) by (intros ->; apply Hst; eapply index_of_inj; eassumption).
   assert (Hpt : getd (pred (p_state p)) t <> None).
-  { destruct Hg as [[_ Hrp] | Hnp].
+  { destruct Hg as [[_ Hrp] | [Hk1 _]].
     - destruct (Hrp _ _ Hdv); [contradiction | assumption].
-    - (* no predecessors at all: only possible when no relaxation was recorded; then the walk is empty *)
-      exfalso. destruct (Z.eq_dec k 0) as [->|Hk0].
-      + destruct es; [inversion Hw; subst; try congruence; destruct es; discriminate | cbn in Hl; lia].
-      + (* k >= 1: distances come with predecessors, so a reached target has one *)
-        clear - Hbf Hnp Hs Hsr Hwf Hdv Hts Hk Hk0.
-        unfold bellman_ford in Hbf. rewrite Hs in Hbf.
-        pose proof (bf_loop_res g s k Hsr Hwf (Z.to_nat (node_count g - 1)) 1 (init_state g s) None ltac:(lia)) as Hres.
-        destruct (bf_loop (Z.to_nat (node_count g - 1)) g k 1 (init_state g s) None) as [st cached] eqn:El.
-        cbn [fst snd] in Hres. destruct (has_negative_cycle g (dist st)); [discriminate|].
-        inversion Hbf as [Hst]. clear Hbf.
-        assert (Hinit : loop_inv g s k 1 (init_state g s) None).
-        { split; [apply init_lenst|]. split; [apply (dle_refl g s Hsr Hwf)|]. split; [apply (d0_real g s Hsr Hwf)|].
-          split; [apply (d0_opt0 g s Hsr Hwf)|]. split; [exact I|]. left. split; [lia | apply init_good; assumption]. }
-        destruct (Hres Hinit) as [_ [_ [_ [Hc Hm]]]].
-        destruct cached as [c|].
-        * destruct Hc as [_ [[_ Hrp] _]]. rewrite <- Hst in Hdv, Hnp. cbn [dist pred] in *.
-          destruct (Hrp _ _ Hdv) as [X | X]; [contradiction|]. apply X. apply Hnp.
-        * rewrite <- Hst in Hdv, Hnp. cbn [dist pred] in *.
-          destruct Hm as [[_ Hrp] | Hp0].
-          -- destruct (Hrp _ _ Hdv) as [X | X]; [contradiction|]. apply X. apply Hnp.
-          -- (* pred = pred0 with k >= 1: cannot be concluded from res_inv alone; use reached_has_pred of the
-                initial phase: every round was within max_steps *)
-             admit. }
+    - (* max_steps = 0: the only walk is the empty one *)
+      exfalso. destruct es as [|e0 es0]; [|cbn [length] in Hl; lia].
+      inversion Hw as [u | u i es' e Hw' Hin Hsrc Hcost E1 E2 E3]; [congruence | destruct es'; discriminate]. }
   unfold path_to in Hp. fold g in Hp. unfold toks_of in Ht. fold g in Ht. rewrite Ht in Hp.
   replace (source =? target) with false in Hp by (symmetry; apply Z.eqb_neq; exact Hst).
   destruct (getd (pred (p_state p)) t) as [[p0 m0]|] eqn:Ept; [|congruence].
   destruct (walk (Z.to_nat (k + 1)) k (pred (p_state p)) (Some (p0, m0)) 0 []) as [q|] eqn:Ew; [|reflexivity].
   exfalso. apply walk_some_nonempty in Ew. inversion Hp; subst. congruence.
-Admitted.
+Qed.
